@@ -88,16 +88,17 @@ func runOneWire(g *hx.Gen, w wireCfg, pki *PKI) (*wireResult, error) {
 	sk := mk(g, "SK")
 	pwd := mk(g, "PW")
 	huser := mk(g, "husr") // 28 characters: neither "user" nor "user:" is a multiple of 3 long, so base64(user:pwd) contains neither base64(user) nor base64(pwd)
-	pn := []string{"", mk(g, "pa"), mk(g, "pb"), mk(g, "pc")}
-	pay := map[int]string{11: mk(g, "U1"), 12: mk(g, "D1"), 21: mk(g, "U2"), 22: mk(g, "D2"), 31: mk(g, "U3"), 32: mk(g, "D3")}
+	sk4 := mk(g, "SQ")
+	pn := []string{"", mk(g, "pa"), mk(g, "pb"), mk(g, "pc"), mk(g, "pd")}
+	pay := map[int]string{11: mk(g, "U1"), 12: mk(g, "D1"), 21: mk(g, "U2"), 22: mk(g, "D2"), 31: mk(g, "U3"), 32: mk(g, "D3"), 41: mk(g, "U4"), 42: mk(g, "D4")}
 	markers := []marker{{"AUser", user}, {"(ASk 3)", sk}, {"(APwd 2)", pwd}, {"(AHttpUser 2)", huser},
-		{"(AProxyName 1)", pn[1]}, {"(AProxyName 2)", pn[2]}, {"(AProxyName 3)", pn[3]}}
+		{"(AProxyName 1)", pn[1]}, {"(AProxyName 2)", pn[2]}, {"(AProxyName 3)", pn[3]}, {"(AProxyName 4)", pn[4]}, {"(ASk 4)", sk4}}
 	if tok != "" {
 		markers = append(markers, marker{"ATok", tok})
 	}
 	// the end user's own Authorization header is part of the tunnelled request (payload 23)
 	pay[23] = base64.StdEncoding.EncodeToString([]byte(huser + ":" + pwd))
-	for _, id := range []int{11, 12, 21, 22, 23, 31, 32} {
+	for _, id := range []int{11, 12, 21, 22, 23, 31, 32, 41, 42} {
 		markers = append(markers, marker{fmt.Sprintf("(APayload %d)", id), pay[id]})
 	}
 	scopes := []v1.AuthScope{}
@@ -182,8 +183,39 @@ func runOneWire(g *hx.Gen, w wireCfg, pki *PKI) (*wireResult, error) {
 	vs.BindAddr, vs.BindPort = addrVisitor, vport
 	vs.Transport.UseEncryption, vs.Transport.UseCompression = w.venc, w.vcomp
 
+	// sudp: udp backend answering with its label and the echo (two datagrams), sudp proxy + sudp visitor
+	ub, err := net.ListenUDP("udp", &net.UDPAddr{IP: net.ParseIP(addrBackend)})
+	if err != nil {
+		return nil, err
+	}
+	defer ub.Close()
+	go func() {
+		buf := make([]byte, 2048)
+		for {
+			n, from, err := ub.ReadFromUDP(buf)
+			if err != nil {
+				return
+			}
+			_, _ = ub.WriteToUDP([]byte(pay[42]), from)
+			_, _ = ub.WriteToUDP(append([]byte(nil), buf[:n]...), from)
+		}
+	}()
+	p4 := &v1.SUDPProxyConfig{}
+	p4.Name, p4.Type = pn[4], "sudp"
+	p4.LocalIP, p4.LocalPort = addrBackend, ub.LocalAddr().(*net.UDPAddr).Port
+	p4.Secretkey = sk4
+	p4.AllowUsers = []string{"*"}
+	p4.Transport.UseEncryption, p4.Transport.UseCompression = w.enc, w.comp
+	uvport := hx.FreeUDPPort(addrVisitor)
+	vu := &v1.SUDPVisitorConfig{}
+	vu.Name, vu.Type = "visu-"+pn[4][:6], "sudp"
+	vu.ServerName = pn[4]
+	vu.SecretKey = sk4
+	vu.BindAddr, vu.BindPort = addrVisitor, uvport
+	vu.Transport.UseEncryption, vu.Transport.UseCompression = w.venc, w.vcomp
+
 	var completed *v1.ClientCommonConfig
-	c, err := s.StartClient([]v1.ProxyConfigurer{p1, p2, p3}, []v1.VisitorConfigurer{vs}, func(cc *v1.ClientCommonConfig) {
+	c, err := s.StartClient([]v1.ProxyConfigurer{p1, p2, p3, p4}, []v1.VisitorConfigurer{vs, vu}, func(cc *v1.ClientCommonConfig) {
 		cc.ServerAddr, cc.ServerPort = addrRelay, relay.Port()
 		cc.User = user
 		cc.Auth.AdditionalScopes = scopes
@@ -222,7 +254,8 @@ func runOneWire(g *hx.Gen, w wireCfg, pki *PKI) (*wireResult, error) {
 	full := func(n string) string { return user + "." + n }
 	up := c.WaitProxyRunning(full(pn[1]), wait)
 	if up {
-		up = c.WaitProxyRunning(full(pn[2]), 2*time.Second) && c.WaitProxyRunning(full(pn[3]), 2*time.Second)
+		up = c.WaitProxyRunning(full(pn[2]), 2*time.Second) && c.WaitProxyRunning(full(pn[3]), 2*time.Second) &&
+			c.WaitProxyRunning(full(pn[4]), 2*time.Second)
 	}
 	res.up = up
 	var errs []string
@@ -257,6 +290,10 @@ func runOneWire(g *hx.Gen, w wireCfg, pki *PKI) (*wireResult, error) {
 		}
 		if se != nil {
 			errs = append(errs, "stcp: "+se.Error())
+		}
+		// sudp through the visitor
+		if ue := udpExchange(net.JoinHostPort(addrVisitor, fmt.Sprint(uvport)), pay[41], pay[42]); ue != nil {
+			errs = append(errs, "sudp: "+ue.Error())
 		}
 		time.Sleep(50 * time.Millisecond)
 		if w.ping {
@@ -303,21 +340,64 @@ func runOneWire(g *hx.Gen, w wireCfg, pki *PKI) (*wireResult, error) {
 	pc := func(id int, kind string) string {
 		return fmt.Sprintf("(mk_pcfg %d %s %s %s)", id, kind, hx.Bool(w.enc), hx.Bool(w.comp))
 	}
-	vc := fmt.Sprintf("(mk_vcfg 1 3 %s %s)", hx.Bool(w.venc), hx.Bool(w.vcomp))
-	h := []string{"ELogin 1", "ENewProxy " + pc(1, "PkTcp"), "ENewProxy " + pc(2, "PkHttp"), "ENewProxy " + pc(3, "PkStcp")}
+	vc := fmt.Sprintf("(mk_vcfg 1 VkStcp 3 %s %s)", hx.Bool(w.venc), hx.Bool(w.vcomp))
+	vcu := fmt.Sprintf("(mk_vcfg 2 VkSudp 4 %s %s)", hx.Bool(w.venc), hx.Bool(w.vcomp))
+	h := []string{"ELogin 1", "ENewProxy " + pc(1, "PkTcp"), "ENewProxy " + pc(2, "PkHttp"), "ENewProxy " + pc(3, "PkStcp"), "ENewProxy " + pc(4, "PkSudp")}
 	if up {
 		h = append(h,
 			"EWorkConn "+pc(1, "PkTcp")+" 2", "EPayload "+pc(1, "PkTcp")+" Up 11", "EPayload "+pc(1, "PkTcp")+" Down 12", "EPayload "+pc(1, "PkTcp")+" Down 11",
 			"EWorkConn "+pc(2, "PkHttp")+" 3", "EPayload "+pc(2, "PkHttp")+" Up 21", "EPayload "+pc(2, "PkHttp")+" Up 23", "EPayload "+pc(2, "PkHttp")+" Down 22",
 			"EVisitorConn "+vc+" 4", "EVisitorPayload "+vc+" Down 31", "EWorkConn "+pc(3, "PkStcp")+" 5",
 			"EPayload "+pc(3, "PkStcp")+" Up 31", "EPayload "+pc(3, "PkStcp")+" Down 32", "EPayload "+pc(3, "PkStcp")+" Down 31",
-			"EVisitorPayload "+vc+" Up 32", "EVisitorPayload "+vc+" Up 31")
+			"EVisitorPayload "+vc+" Up 32", "EVisitorPayload "+vc+" Up 31",
+			"EVisitorConn "+vcu+" 7", "EVisitorPayload "+vcu+" Down 41", "EWorkConn "+pc(4, "PkSudp")+" 8",
+			"EPayload "+pc(4, "PkSudp")+" Up 41", "EPayload "+pc(4, "PkSudp")+" Down 42", "EPayload "+pc(4, "PkSudp")+" Down 41",
+			"EVisitorPayload "+vcu+" Up 42", "EVisitorPayload "+vcu+" Up 41")
 		if w.ping {
 			h = append(h, "EPing 6")
 		}
 	}
 	res.hist = hx.List(h)
 	return res, nil
+}
+
+// udpExchange sends one datagram and expects the backend's label and the echo back (retries: the first
+// datagram opens the visitor connection).
+func udpExchange(addr, up, label string) error {
+	ua, err := net.ResolveUDPAddr("udp", addr)
+	if err != nil {
+		return err
+	}
+	conn, err := net.DialUDP("udp", nil, ua)
+	if err != nil {
+		return err
+	}
+	defer conn.Close()
+	gotLabel, gotEcho := false, false
+	buf := make([]byte, 2048)
+	for attempt := 0; attempt < 6 && !(gotLabel && gotEcho); attempt++ {
+		if _, err := conn.Write([]byte(up)); err != nil {
+			return err
+		}
+		deadline := time.Now().Add(500 * time.Millisecond)
+		for time.Now().Before(deadline) && !(gotLabel && gotEcho) {
+			_ = conn.SetReadDeadline(deadline)
+			n, err := conn.Read(buf)
+			if err != nil {
+				break
+			}
+			switch string(buf[:n]) {
+			case label:
+				gotLabel = true
+			case up:
+				gotEcho = true
+			}
+		}
+	}
+	if !(gotLabel && gotEcho) {
+		return fmt.Errorf("no answer through the sudp tunnel (label %v echo %v)", gotLabel, gotEcho)
+	}
+	return nil
 }
 
 // exchange connects, sends up, expects the backend's label and the echo of up.
@@ -473,7 +553,7 @@ func runWire(cfg *hx.RunCfg) error {
 		}
 		if !effTLS && r.up && w.enc && w.venc {
 			for _, a := range r.observed {
-				if a == "(APayload 31)" || a == "(APayload 32)" {
+				if a == "(APayload 31)" || a == "(APayload 32)" || a == "(APayload 41)" || a == "(APayload 42)" {
 					implFail = append(implFail, map[string]string{"key": "visitor-payload-clear-despite-encryption",
 						"what": "payload marker " + a + " of an stcp tunnel whose proxy and visitor both set transport.useEncryption=true readable on the path", "case": w.String()})
 				}
